@@ -37,5 +37,6 @@ def run(ctx):
     A.r18_1_cycles(ctx, 'R08.9')
     H.r14_9_get_value_text(ctx, 'R08.7', dump_side=False)
     H.r14_10_get_value_typestate(ctx, 'R08.8')
+    S.r17_4_no_silent_reject(ctx, 'R08.11')
     from . import c09 as C9
     C9.o3_resolve_vs_construct(ctx, 'R08.10')
